@@ -145,12 +145,23 @@ pub struct Handoff {
     first_display: bool,
     second_display: bool,
     second_port: u16,
+    #[serde(default)]
+    second_other_ip: bool,
 }
 fn run_handoff(c: &Handoff) -> Verdict {
     paused_rt().block_on(async {
         let mut v = Verdict::new();
         let sa = c.addr.sa();
-        let sb = SocketAddr::new(sa.ip(), c.second_port);
+        let other = match sa.ip() {
+            IpAddr::V4(a) => IpAddr::V4(Ipv4Addr::new(a.octets()[0] ^ 0x40, a.octets()[1].wrapping_add(7), a.octets()[2], a.octets()[3])),
+            IpAddr::V6(a) => {
+                let mut s = a.segments();
+                s[1] ^= 0x0101;
+                s[3] = s[3].wrapping_add(1);
+                IpAddr::V6(Ipv6Addr::new(s[0], s[1], s[2], s[3], s[4], s[5], s[6], s[7]))
+            }
+        };
+        let sb = SocketAddr::new(if c.second_other_ip { other } else { sa.ip() }, c.second_port);
         let rend = |s: SocketAddr, display: bool| if display { NetworkAddress::new(s).to_string() } else { s.to_string() };
         let mut eng = DhtCoreEngine::verif_new_log_only(NodeId::from_bytes([0u8; 32])).expect("engine");
         let mk = |i: u8, address: String| NodeInfo { id: NodeId::from_bytes(*blake3::hash(&[i, 0x19]).as_bytes()), address, last_seen: SystemTime::now(), capacity: NodeCapacity::default() };
@@ -298,7 +309,7 @@ pub fn run(run: &Run) {
     run.prop("ipv4_random", run.tier.pick(20_000, 2_000_000), sh, c4, check_addr);
     let c6 = (v6_classes(), variant()).prop_map(|(addr, variant)| Case { addr, variant });
     run.prop("ipv6", run.tier.pick(3000, 200_000), sh, c6, check_addr);
-    let h = (prop_oneof![3 => v4_any(), 1 => v6_classes()], any::<bool>(), any::<bool>(), any::<u16>()).prop_map(|(addr, first_display, second_display, second_port)| Handoff { addr, first_display, second_display, second_port });
+    let h = (prop_oneof![3 => v4_any(), 1 => v6_classes()], any::<bool>(), any::<bool>(), any::<u16>(), any::<bool>()).prop_map(|(addr, first_display, second_display, second_port, second_other_ip)| Handoff { addr, first_display, second_display, second_port, second_other_ip });
     run.prop("handoff", run.tier.pick(1500, 40_000), sh, h, run_handoff);
     let any_addr = || prop_oneof![3 => v4_any(), 1 => v6_classes()];
     let bad = prop_oneof![
